@@ -50,7 +50,7 @@ def CORPUS():
 def correspond(ctx):
     reps = [H.corr_block(ctx, "C11", "ctl_claims", [("claims", ctx.n(180, 1800)), ("mixed", ctx.n(50, 500)),
                                                     ("filter", ctx.n(20, 200)), ("malformed", ctx.n(20, 200))],
-                         extra_cases=CORPUS())]
+                         extra_cases=CORPUS() + reclaim_cases(ctx.rng)[:ctx.n(60, 180)])]
     H.remove_wrappers()
     return reps
 
